@@ -46,12 +46,24 @@ def nshards(tier):
     return 16
 
 
-def load(b, **kw):
+_toggle = [0]
+
+
+def load(b, ascii_ok=False, **kw):
     if kw.get('debug'):
-        sink = io.StringIO()
+        _toggle[0] += 1
+        if _toggle[0] % 2 or not ascii_ok:
+            sink = io.StringIO()
+            with contextlib.redirect_stdout(sink):
+                mid = MidiFile(file=io.BytesIO(b), **kw)
+            return mid, len(sink.getvalue())
+        # a terminal / pipe that can encode ASCII only, with strict error handling
+        raw = io.BytesIO()
+        sink = io.TextIOWrapper(raw, encoding='ascii', errors='strict', write_through=True)
         with contextlib.redirect_stdout(sink):
             mid = MidiFile(file=io.BytesIO(b), **kw)
-        return mid, len(sink.getvalue())
+        sink.flush()
+        return mid, len(raw.getvalue())
     return MidiFile(file=io.BytesIO(b), **kw), 0
 
 
@@ -93,6 +105,42 @@ def write_case(ctx, seed):
     return any(not smf.is_eot(e) for t in tracks for e in t)
 
 
+def charset_write_case(ctx, cs, seed):
+    """Write direction under a non-default charset: text payloads in the file are text.encode(charset)."""
+    import mido
+    rng = random.Random(seed)
+    texts = ['', 'abc', 'caf\xe9 \xfc', 'A' * 130] if cs != 'ascii' else ['', 'abc']
+    if cs in ('utf-8', 'utf-16', 'shift_jis', 'utf-16-le'):
+        texts += ['\u3042\u3044', 'x\u30a2']
+    mid = MidiFile(charset=cs)
+    tr = mido.MidiTrack()
+    for t in texts:
+        try:
+            t.encode(cs)
+        except UnicodeError:
+            continue
+        tr.append(mido.MetaMessage(rng.choice(('text', 'lyrics', 'marker')), text=t, time=rng.choice((0, 200))))
+        tr.append(mido.MetaMessage('track_name', name=t))
+        tr.append(mido.Message('note_on', note=1, time=1))
+    mid.tracks.append(tr)
+    case = {'kind': 'charset-write', 'charset': cs, 'seed': seed}
+    try:
+        buf = io.BytesIO()
+        mid.save(file=buf)
+        d = smf.decode_file(buf.getvalue())
+        ctx.check('written bytes conformant', not d['flags'], f'charset-nonconformant:{cs}', case, d['flags'][:3])
+        got = [bytes(e[3]) for e in d['tracks'][0] if e[0] == 'meta' and e[2] in (1, 3, 5, 6)]
+        want = [getattr(m, 'text', None).encode(cs) if hasattr(m, 'text') else m.name.encode(cs)
+                for m in tr if m.is_meta]
+        ctx.check('decoded events == in-memory events', got == want, f'charset-payload:{cs}', case,
+                  lambda: {'got': [g.hex() for g in got][:4], 'want': [w.hex() for w in want][:4]})
+        back, _ = load(buf.getvalue(), charset=cs)
+        ctx.check('alternative encoding loads to the event list', list(back.tracks[0])[:-1] == list(tr),
+                  f'charset-reload:{cs}', case, None)
+    except Exception as exc:
+        ctx.fail('written bytes conformant', f'charset-write:{type(exc).__name__}', case, f'{type(exc).__name__}: {exc}')
+
+
 def first_diff(got, want):
     if len(got) != len(want):
         return {'tracks_got': len(got), 'tracks_want': len(want)}
@@ -111,6 +159,9 @@ def read_case(ctx, seed):
     fmt, div, tracks = genfile.rand_file_events(rng, ('end',), nmax=40)
     want = [smf.norm_track(t) for t in tracks]
     nontrivial = 0
+    # The debug trace prints repr(message); on an ASCII-only stdout that is printable only when every
+    # repr is ASCII (printing non-ASCII text to such a stream fails in any Python program - not judged)
+    ascii_ok = all(ord(c) < 128 for t in tracks for e in t for c in repr(genfile.msg_of_event(e)))
     encs = [('never', False, 6), ('always', False, 6),
             ('random', True, rng.choice((6, 7, 8, 12, 40))),
             (rng.choice(('always', 'random')), rng.random() < 0.5, rng.choice((6, 6, 9, 14, 36)))]
@@ -123,7 +174,7 @@ def read_case(ctx, seed):
         for debug in (False, True):
             for clip in (False, True):
                 try:
-                    mid, nout = load(b, debug=debug, clip=clip)
+                    mid, nout = load(b, ascii_ok=ascii_ok, debug=debug, clip=clip)
                     results[(debug, clip)] = (mid.type, mid.ticks_per_beat, events_of(mid))
                     if debug:
                         ctx.check('debug output produced', nout > 0, 'debug-silent', case, None)
@@ -190,7 +241,7 @@ def read_case(ctx, seed):
             wantc.append(smf.norm_track(tt))
         for debug in (False, True):
             try:
-                mid, _ = load(b, clip=True, debug=debug)
+                mid, _ = load(b, ascii_ok=False, clip=True, debug=debug)
                 got = events_of(mid)
                 ctx.check('clip=True clips exactly those bytes', got == wantc, 'clip-true-differs',
                           case, lambda: first_diff(got, wantc))
@@ -211,6 +262,11 @@ def run(ctx):
             ctx.nontrivial(('w', seed))
         n += 1
     ctx.extra('files_written_and_decoded', nw)
+    for ci, cs in enumerate(('utf-8', 'utf-16', 'shift_jis', 'cp1252', 'utf-16-le', 'latin1', 'ascii', 'koi8-r')):
+        if ci % ctx.nshards == ctx.shard:
+            charset_write_case(ctx, cs, f'{ctx.seed}:{cs}')
+            ctx.nontrivial(('charset-write', cs))
+            n += 1
     nr = 40 if ctx.tier == 'quick' else 2500
     for j in range(nr):
         seed = f'{ctx.seed}:{ctx.shard}:r{j}'
@@ -227,7 +283,9 @@ def run(ctx):
 
 
 def replay(ctx, case):
-    if case['kind'] == 'write':
+    if case['kind'] == 'charset-write':
+        charset_write_case(ctx, case['charset'], case['seed'])
+    elif case['kind'] == 'write':
         write_case(ctx, case['seed'])
     else:
         read_case(ctx, case['seed'])
